@@ -15,8 +15,8 @@ import os, pickle, random, json, sys, subprocess, time
 from .. import tlc, vsched, tracecheck, vmp
 from ..vsched import Sched
 
-ACTIONS = ["MainStart", "MainWait", "MainRest", "MainGet", "MainAbandon", "MainFinally", "LoaderPull", "LoaderPut", "LoaderCb",
-           "LoaderPillCheck", "LoaderPillPut", "WorkerBoot", "WorkerGet", "WorkerOut", "Callback", "CbPutPoison"]
+ACTIONS = ["MainStart", "MainStartFirst", "MainWait", "MainRestOne", "MainGet", "MainAbandon", "MainFinally", "LoaderPull", "LoaderPut", "LoaderCb",
+           "LoaderPillCheck", "LoaderPillPut", "WorkerBoot", "WorkerGet", "WorkerOut", "Callback", "CbStart", "CbPutPoison"]
 FINISH = dict(level="model_checking",
               rule="a case = one execution of the real Multiprocessor.filter under one virtual schedule of one configuration (P,Max,N,faults,abandon), or one real-spawn run; distinct = distinct (configuration, event sequence)")
 
